@@ -82,14 +82,6 @@ def check_result(case, result, rec, jc):
 
         if not np.array_equal(arr("data"), D):
             bad.append(("data-changed", f"{label}: result data differ from the input data"))
-        # comparisons below are NaN-blind (nan > tol is False): a non-finite entry in a reported variable is judged here
-        nonfinite = [v for v in ("fitted_data", "residual", "clp", "matrix", "weighted_residual", "weight") if v in rd and not np.isfinite(rd[v].values).all()]
-        if "matrix" in nonfinite:
-            rec.skip("model matrix non-finite at the reported parameters (harness model overflow)")
-            continue
-        if nonfinite:
-            bad.append((f"non-finite:{nonfinite[0]}", f"{label}: result variable(s) {nonfinite} contain NaN / inf (finite input data)"))
-            continue
         rec.count("identities_checked")
         # -- data = fitted + residual
         dev = np.abs(arr("data") - (arr("fitted_data") + arr("residual")))
@@ -104,6 +96,14 @@ def check_result(case, result, rec, jc):
             ok_ref = ok_ref or ref
         if ok_ref is None:
             rec.skip("reference ill-conditioned (kappa > 1e8) or unavailable")
+            continue
+        # comparisons below are NaN-blind (nan > tol is False): a non-finite entry in a reported variable is judged here
+        nonfinite = [v for v in ("fitted_data", "residual", "clp", "matrix", "weighted_residual", "weight") if v in rd and not np.isfinite(rd[v].values).all()]
+        if "matrix" in nonfinite:
+            rec.skip("model matrix non-finite at the reported parameters (harness model overflow)")
+            continue
+        if nonfinite:
+            bad.append((f"non-finite:{nonfinite[0]}", f"{label}: result variable(s) {nonfinite} contain NaN / inf (finite input data)"))
             continue
         W = ok_ref["weights"][label]
         if W is None:
